@@ -1,4 +1,5 @@
 import EmmyVerif.Model.LspShape
+import EmmyVerif.Model.LspShapeTree
 import EmmyVerif.Model.Pos
 import EmmyVerif.Drv.Util
 /-! Driver ops of the `LspShape` (C26) and `Pos` (C25) families.
@@ -8,7 +9,11 @@ import EmmyVerif.Drv.Util
 `lspshape.offsets <hex text> <rootEnd> <l:c;…>` → per position `none|guard|<off>`
 `lspshape.ranges <hex text> <sl:sc:el:ec;…>`     → per range `none|s:e`
 `lspshape.chain <ranges>` ranges `sl:sc:el:ec;…` (innermost first) → `ok nested=<b> strict=<b> growStrict=<b>`
-`lspshape.edits <ranges>` → `ok disjoint=<b>` -/
+`lspshape.edits <ranges>` → `ok disjoint=<b>`
+`lspshape.tree <nodes>` nodes `s:e:parent;…` in preorder, parent `x` for the root → `ok wellNested=<b>`
+`lspshape.symbols <syms>` `sl:sc:el:ec:ssl:ssc:sel:sec:parent;…` in preorder (parent `x` = top level) → `ok valid=<b>`
+`lspshape.folds <lineCount> <startLine:endLine;…>` → `ok valid=<b>`
+`lspshape.lines <starts a:b:…> <offsets a:b:…>` → `ok <line:line:…>` (`lineOf`) -/
 namespace Drv.LspShape
 open _root_.LspShape
 
@@ -28,6 +33,29 @@ def showList (xs : List String) : String := if xs.isEmpty then "-" else Drv.join
 def range (s : String) : Option Range :=
   match nats s with
   | some [a, b, c, d] => some ⟨(a, b), (c, d)⟩
+  | _ => none
+
+def optNat (s : String) : Option (Option Nat) := if s == "x" then some none else s.toNat?.map some
+
+def node (s : String) : Option Node :=
+  match s.splitOn ":" with
+  | [a, b, p] => do
+    let a ← a.toNat?; let b ← b.toNat?; let p ← optNat p
+    pure ⟨a, b, p⟩
+  | _ => none
+
+def sym (s : String) : Option (Range × Range × Option Nat) :=
+  match s.splitOn ":" with
+  | [a, b, c, d, e, f, g, h, p] => do
+    let a ← a.toNat?; let b ← b.toNat?; let c ← c.toNat?; let d ← d.toNat?
+    let e ← e.toNat?; let f ← f.toNat?; let g ← g.toNat?; let h ← h.toNat?
+    let p ← optNat p
+    pure (⟨(a, b), (c, d)⟩, ⟨(e, f), (g, h)⟩, p)
+  | _ => none
+
+def pair (s : String) : Option (Nat × Nat) :=
+  match nats s with
+  | some [a, b] => some (a, b)
   | _ => none
 
 def handle (op : String) (args : List String) : Option String :=
@@ -58,6 +86,20 @@ def handle (op : String) (args : List String) : Option String :=
   | "chain", [s] => do
     let rs ← (items s).mapM range
     pure s!"ok nested={chainNested rs} strict={chainStrict rs} growStrict={chainStrict (grow rs)}"
+  | "tree", [s] => do
+    let ns ← (items s).mapM node
+    pure s!"ok wellNested={wellNested ns}"
+  | "symbols", [s] => do
+    let ss ← (items s).mapM sym
+    pure s!"ok valid={symbolsOK ss}"
+  | "folds", [n, s] => do
+    let n ← n.toNat?
+    let fs ← (items s).mapM pair
+    pure s!"ok valid={foldsOK n fs}"
+  | "lines", [st, os] => do
+    let st ← if st == "-" then some [] else nats st
+    let os ← if os == "-" then some [] else nats os
+    pure ("ok " ++ (if os.isEmpty then "-" else Drv.joinWith ":" (os.map fun o => toString (lineOf st o))))
   | "edits", [s] => do
     let rs ← (items s).mapM range
     pure s!"ok disjoint={editsDisjoint rs}"
